@@ -43,8 +43,9 @@ def make_records(rng, alph, jsonld_safe=False, nrec=None):
 
 class C14(ProgramProperty):
     id = "C14"
-    theorems = ["C14_epm", "C14_jsonld", "C14_shacl_literal", "C14_shacl_entry", "C14_tsv", "C14_tsv_bytes"]
-    lean_modules = ["CuriesVerif.Properties.C14", "CuriesVerif.Properties.Bytes"]
+    theorems = ["C14_epm", "C14_jsonld", "C14_shacl_literal", "C14_shacl_entry", "C14_tsv", "C14_tsv_bytes", "C14_epm_bytes",
+                "C14_jsonld_bytes"]
+    lean_modules = ["CuriesVerif.Properties.C14", "CuriesVerif.Properties.Bytes", "CuriesVerif.Properties.JsonBytes"]
     rule = ("one case = one strict converter of 1-4 records (records with and without synonyms and patterns side by "
             "side) written with the real writers into real files and read back with the real readers: "
             "write_extended_prefix_map (arbitrary Unicode incl. quotes, angle brackets, tabs, newlines, NUL; lone "
@@ -58,6 +59,11 @@ class C14(ProgramProperty):
         return 500 if tier == "quick" else 12000
 
     def gen(self, rng, tier):
+        if rng.random() < 0.1:
+            # the JSON text layer on its own: CPython's json against Model/Json.lean, documents the writers never produce included
+            from .. import jsonlayer
+            return {"steps": [], "json": jsonlayer.gen_case(rng), "fmt": "json-text", "syn": False, "expand": False,
+                    "nontrivial": True, "tags": ["fmt=json-text"]}
         fmt = rng.choice(["epm", "jsonld", "shacl", "shacl", "tsv"])
         alph = UNICODE if fmt == "epm" else PRINTABLE
         if fmt == "jsonld":
@@ -89,11 +95,38 @@ class C14(ProgramProperty):
                 "tags": [f"fmt={fmt}", f"syn={syn}", f"expand={expand}", f"build={how}"]}
 
     def evaluations(self, case):
-        return 1
+        return len(case["json"]["texts"]) + len(case["json"]["values"]) if case.get("json") else 1
+
+    def fingerprint(self, case):
+        if case.get("json"):
+            import hashlib
+            import json
+
+            return hashlib.sha1(json.dumps(case["json"], sort_keys=True).encode()).hexdigest()[:16]
+        return super().fingerprint(case)
+
+    def readable(self, case, impl):
+        if case.get("json"):
+            from .. import jsonlayer as J
+
+            ji = case.get("_json_impl") or J.run_python(case["json"])
+            out = [f"json.loads({uncps(t)!r})  ->  {'error' if p == J.ERROR else 'skipped (number)' if p == J.SKIP else repr(J.untag(p))}"
+                   for t, p in zip(case["json"]["texts"], ji["parsed"])]
+            out += [f"json.dumps({J.untag(v)!r}, indent={case['json']['indent']}, ensure_ascii={case['json']['ascii']})  ->  {uncps(t)!r}"
+                    for v, t in zip(case["json"]["values"], ji["rendered"])]
+            return out
+        return super().readable(case, impl)
+
+    def sample(self, case, impl):
+        return self.readable(case, impl)[:12] if case.get("json") else super().sample(case, impl)
 
     def run_impl(self, case):
         from .. import common
 
+        if case.get("json"):
+            from .. import jsonlayer
+            case["_json_impl"] = jsonlayer.run_python(case["json"])
+            return []
         del common.CAPTURED[:]
         impl = super().run_impl(case)
         case["_texts"] = [[fmt, [[cps(p_), cps(u_)] for p_, u_ in pairs], cps(text)] for fmt, pairs, text in common.CAPTURED]
@@ -104,8 +137,13 @@ class C14(ProgramProperty):
         csv model says (Files.tsvText), and the model's reader parses it back to the written pairs."""
         from .. import common
 
+        if case.get("json"):
+            from .. import jsonlayer
+            return jsonlayer.compare(case["json"], case["_json_impl"], common.run_driver([jsonlayer.request(case["json"])])[0])
         diffs = super().compare(case, impl, resp)
         for fmt, pairs, text in case.get("_texts", []):
+            if fmt in ("epm", "jsonld"):
+                diffs += self._json_file(fmt, uncps(text))
             if fmt != "tsv":
                 continue
             r = common.run_driver([{"k": "tsv", "header": [cps("prefix"), cps("base")],
@@ -118,12 +156,57 @@ class C14(ProgramProperty):
                               "model": r.get("pairs")})
         return diffs
 
+    def _json_file(self, fmt, text):
+        """The JSON file the library wrote, through the text-level model: the modelled json.loads reads it as CPython's
+        does; the modelled json.dumps writes the value as CPython's does (same indent, same escaping mode as the writer
+        uses); and the modelled reader of the file (Record(**dict) resp. the @context walk) sees what Python sees."""
+        import json
+
+        from .. import common, jsonlayer as J
+
+        diffs = []
+        py = json.loads(text)
+        ascii_ = fmt == "jsonld"
+        req = {"k": "json", "texts": [cps(text)], "values": [J.tag(py)], "indent": 4, "ascii": ascii_,
+               "epm": [cps(text)] if fmt == "epm" else [], "jsonld": [cps(text)] if fmt == "jsonld" else []}
+        r = common.run_driver([req])[0]
+        if r.get("parsed", [None])[0] != J.tag(py):
+            diffs.append({"step": 0, "op": f"json.loads of the {fmt} file", "implementation": repr(py)[:300],
+                          "model": repr(r.get("parsed"))[:300]})
+        want = json.dumps(py, indent=4, ensure_ascii=ascii_)
+        if r.get("rendered", [None])[0] != cps(want):
+            diffs.append({"step": 0, "op": f"json.dumps of the content of the {fmt} file", "implementation": want[:300],
+                          "model": uncps(r.get("rendered", [[]])[0])[:300]})
+        if fmt == "epm":
+            opt = lambda d, k: None if k not in d else [cps(x) for x in d[k]]
+            exp = [{"p": cps(d["prefix"]), "u": cps(d["uri_prefix"]), "ps": opt(d, "prefix_synonyms"),
+                    "us": opt(d, "uri_prefix_synonyms"), "pat": None if "pattern" not in d else cps(d["pattern"])} for d in py]
+            if r.get("epm", [None])[0] != exp:
+                diffs.append({"step": 0, "op": "record dictionaries read from the extended prefix map file",
+                              "implementation": repr(py)[:300], "model": repr(r.get("epm"))[:300]})
+        else:
+            def term(v):
+                if isinstance(v, str):
+                    return {"s": cps(v)}
+                if isinstance(v, dict) and v.get("@prefix") is True:
+                    return {"id": cps(v["@id"]) if isinstance(v.get("@id"), str) else None}
+                return {"other": True}
+            exp = [[cps(k), term(v)] for k, v in py["@context"].items()]
+            if r.get("jsonld", [None])[0] != exp:
+                diffs.append({"step": 0, "op": "terms read from the JSON-LD file", "implementation": repr(py)[:300],
+                              "model": repr(r.get("jsonld"))[:300]})
+        return diffs
+
     def reductions(self, case):
+        if case.get("json"):
+            return
         for c in super().reductions(case):
             if all((st["op"] != "init" or st["records"]) and (st["op"] != "load_pm" or st["data"]) for st in c["steps"]):
                 yield c
 
     def laws(self, case, impl):
+        if case.get("json"):
+            return []
         g0, g1 = Getter(case, impl, 0), Getter(case, impl, 1)
         fails = []
         rt = [v for st, v in zip(case["steps"], impl) if st["op"] == "roundtrip"]
